@@ -3,11 +3,13 @@
 
    Built by ./check C06 against the library objects compiled from VERIF_REPO (ASan+UBSan) and linked with
      -Wl,--wrap=malloc,--wrap=calloc,--wrap=realloc,--wrap=free,--wrap=strdup,--wrap=strndup,--wrap=vasprintf
-     -Wl,--wrap=CompoundParser,--wrap=GetCompoundDataNISTByName
+     -Wl,--wrap=CompoundParser,--wrap=GetCompoundDataNISTByName,--wrap=Fi,--wrap=CS_Total
    The allocation wrappers count live heap blocks (observer).  The two lookup wrappers pass every call through to the real
    function, except for the name of an `inj` line, for which they return the composition given on that line: this lets the
    run exercise the code shape with lookups the real parser/catalogue never produce together (both succeed: precedence;
-   a failing element BEFORE a good one; a zero mass fraction).
+   a failing element BEFORE a good one; a zero mass fraction).  The wrappers of Fi and CS_Total pass through as well, except on a
+   `zero` line, where they answer 0.0 WITHOUT an error for one element: the corner `value 0 = failure signal` of the code
+   (theorems cp_zero_product_witness, refr_re_zero_witness, refr_im_zero_witness) replayed on the real functions.
 
    Line protocol (strings %-escaped: every byte outside [A-Za-z0-9.()_-] is %XX, the empty string is `%`; doubles x<16 hex>):
      tables
@@ -17,6 +19,8 @@
          Refractive_Index2 (doubles: E density); E|N = &error / NULL
      inj <Pspec> <Nspec> <fn> <E|N> <compound> <double>...
          Pspec: `-` real parser | `0` NULL | Z:w,Z:w,...        Nspec: `-` real catalogue | `0` NULL | rho;Z:w,...
+     zero <Zfi> <Zcs> <one of the two forms above>
+         Fi(Zfi, .) and CS_Total(Zcs, .) answer 0.0 with no error during this line (0 = nobody)
    Answer (one line):
      ok <value>[ <value2>] <slot> live=<blocks still allocated after the call, error object excluded>
         | P=<-|blocks;Z:w,...> N=<-|blocks;rho;Z:w,...> V=<Z:outcome[/outcome/outcome],...> L=<blocks the lookups themselves left>
@@ -120,6 +124,13 @@ static int set_inj(char *ps, char *ns, const char *key) {
   inj_on = 1; return 1;
 }
 
+/* ---------------- elemental wrappers (a successful value of exactly 0) ------------------------- */
+double __real_Fi(int, double, xrl_error **);
+double __real_CS_Total(int, double, xrl_error **);
+static int zero_fi = 0, zero_cs = 0;
+double __wrap_Fi(int Z, double E, xrl_error **error) { if (zero_fi && Z == zero_fi) return 0.0; return __real_Fi(Z, E, error); }
+double __wrap_CS_Total(int Z, double E, xrl_error **error) { if (zero_cs && Z == zero_cs) return 0.0; return __real_CS_Total(Z, E, error); }
+
 /* ---------------- the functions under study --------------------------------------------------- */
 typedef double (*f1_t)(int, double, xrl_error **);
 typedef double (*f2_t)(int, double, double, xrl_error **);
@@ -218,11 +229,11 @@ static void do_call(const char *fn, const char *mode, const char *compound, doub
 
 int main(void) {
   static char line[1 << 16], buf[1 << 16];
-  char *tok[16];
+  char *tok[20];
   setvbuf(stdout, NULL, _IOFBF, 1 << 16);
   while (fgets(line, sizeof line, stdin)) {
     int nt = 0;
-    for (char *p = strtok(line, " \n"); p && nt < 16; p = strtok(NULL, " \n")) tok[nt++] = p;
+    for (char *p = strtok(line, " \n"); p && nt < 20; p = strtok(NULL, " \n")) tok[nt++] = p;
     if (nt == 0) continue;
     if (!strcmp(tok[0], "tables")) {
       printf("sym");
@@ -237,18 +248,24 @@ int main(void) {
       printf("\n");
       continue;
     }
-    int o = 0;
-    if (!strcmp(tok[0], "inj")) {
+    int o = 0, z = 0;
+    zero_fi = zero_cs = 0;
+    if (!strcmp(tok[0], "zero")) {
       if (nt < 6) { printf("bad-op\n"); continue; }
+      zero_fi = atoi(tok[1]); zero_cs = atoi(tok[2]); z = 3;
+    }
+    if (!strcmp(tok[z], "inj")) {
+      if (nt < z + 6) { printf("bad-op\n"); continue; }
       o = 3;
     }
+    o += z;
     if (nt < o + 3) { printf("bad-op\n"); continue; }
     unesc(tok[o + 2], buf);
-    if (o && !set_inj(tok[1], tok[2], buf)) { printf("bad-op\n"); continue; }
+    if (o > z && !set_inj(tok[z + 1], tok[z + 2], buf)) { printf("bad-op\n"); continue; }
     double a[4]; int na = 0;
     for (int i = o + 3; i < nt && na < 4; i++) a[na++] = un_d(tok[i]);
     do_call(tok[o], tok[o + 1], buf, a, na);
-    inj_on = 0;
+    inj_on = 0; zero_fi = zero_cs = 0;
   }
   fflush(stdout);
   return 0;
